@@ -414,6 +414,15 @@ def evalDelFault (ins outs : List String) : Verdict :=
     if tl != to then .prop "c08_pointers" s!"tail={tl}" else .ok "delfault"
   | _, _, _, _, _, _, _, _, _, _ => .bad "delfault fields"
 
+/-- `kind=deadline`: a valid tail-side and a valid head-side DeleteRange under a caller deadline of any length -/
+def evalDeadline (outs : List String) : Verdict :=
+  match kv? outs "tailside", kv? outs "headside", kvNat? outs "head", kvNat? outs "tail", (kv? outs "byheight").bind natList? with
+  | some a, some b, some hd, some tl, some bh =>
+    if a != "ok" || b != "ok" then .prop "c08_accepts_valid_ranges" s!"DeleteRange(1,8)={a} DeleteRange(23,26)={b}" else
+    if tl != 8 || hd != 22 then .prop "c08_pointers" s!"tail={tl} head={hd}, expected 8..22" else
+    if bh != List.range' 8 15 then .prop "c08_removed" s!"byheight={bh}" else .ok "deadline"
+  | _, _, _, _, _ => .bad "deadline fields"
+
 /-- `kind=flushinhandler`: the pending batch is flushed while the handler of an unflushed header is in flight -/
 def evalFlushInHandler (ins outs : List String) : Verdict :=
   match kvNat? ins "n", kvNat? ins "to", kvNat? ins "more", kv? outs "delete", kvNat? outs "head", kvNat? outs "tail",
@@ -437,6 +446,7 @@ def evalParFail (tag : String) (ins outs : List String) : Verdict :=
   if kv? ins "kind" == some "readduringdelete" then evalReadDuringDelete ins outs else
   if kv? ins "kind" == some "queued" then evalQueued ins outs else
   if kv? ins "kind" == some "delfault" then evalDelFault ins outs else
+  if kv? ins "kind" == some "deadline" then evalDeadline outs else
   if kv? ins "kind" == some "flushinhandler" then evalFlushInHandler ins outs else
   match kvNat? ins "n", kvNat? ins "to", kvNat? ins "failfrom", kvNat? ins "only",
         kv? outs "res1", kvNat? outs "tail1", kvNat? outs "head1", (kv? outs "stored1").bind natList?, (kv? outs "keys1").bind natList?,
